@@ -1,4 +1,5 @@
 import GffProofs.Props.C04
+import GffProofs.Props.C04b
 open GffProofs.C04
 #print axioms incr_spec
 #print axioms id_first_present
@@ -20,3 +21,16 @@ open GffProofs.C04
 #print axioms getitem_absent
 #print axioms getitem_id
 #print axioms default_spec_gff
+#print axioms GffProofs.C04b.provFold_get?
+#print axioms GffProofs.C04b.inferFold_get?
+#print axioms GffProofs.C04b.splitKeyvals_flag
+#print axioms provided_values
+#print axioms inferred_values
+#print axioms values_twice
+#print axioms repeated_key_both_values
+#print axioms repeated_key_two_or_more
+#print axioms rejected_of_reaches
+#print axioms repeated_id_line_rejected
+#print axioms renderItem_repeated
+#print axioms lineSpec_multi_id_provided
+#print axioms lineSpec_multi_id_inferred
